@@ -1491,11 +1491,13 @@ func checkC10(c *Ctx, r *Report) {
 	// who-may-read: the hook variables are consulted only by the recorder; any other reader is an additional
 	// invocation site (a second call per event, possibly with another context or on another goroutine)
 	nReads, badReads := 0, 0
+	hooksRead := map[string]bool{}
 	for _, f := range c.Funcs {
 		eachInstr(f, func(in ssa.Instruction) {
 			if ld, ok := in.(*ssa.UnOp); ok && ld.Op == token.MUL {
 				if g, ok := ld.X.(*ssa.Global); ok && hooks[g] != "" {
 					nReads++
+					hooksRead[hooks[g]] = true
 					if f != R {
 						badReads++
 						r.Fail("C10.hook-sites:"+fname(f)+"→"+hooks[g], c.instrPos(in), "hook %s is read outside the recorder: every such site is a further invocation per event or per write, outside the level gate and not with the caller's context", hooks[g])
@@ -1507,7 +1509,7 @@ func checkC10(c *Ctx, r *Report) {
 	if badReads == 0 {
 		r.OK("C10.hook-sites:"+fname(R), "%d reads of the three hook variables, all inside the recorder", nReads)
 	}
-	r.Floor("hook variable reads", nReads, 6)
+	r.Floor("hook variables read", len(hooksRead), 3)
 	// worker does not reach hooks
 	if ro.Worker != nil {
 		bad := 0
